@@ -405,6 +405,10 @@ func concAll(r *vx.Rng, st *vx.Stats, runs int) {
 		}
 	}
 	st.Count("conc:directed-D14b")
+	if !evictMaxSlot(5 * time.Second) {
+		st.Fail(map[string]any{"sig": "", "kind": "directed-evict-max", "why": "NewEvictionState[uint8](): EvictionEvent(255); Evict(255) did not return / did not trigger the event"})
+	}
+	st.Count("conc:directed-evict-max")
 	if e, lost := wgDupRace(2000); lost > 0 {
 		st.Fail(map[string]any{"sig": "", "kind": "race-D14c", "why": fmt.Sprintf("WaitGroup{1}: Add(1) || Done(1): %d of %d runs ended empty and untriggered", lost, e)})
 	}
